@@ -17,6 +17,19 @@ impl ser::Serialize for BigDecimal {
     }
 }
 
+/// Text of a decimal as a valid JSON number
+///
+/// A zero with negative scale is displayed with padded zeros ("00"), which is
+/// not a JSON number: print it as plain "0".
+#[cfg(feature = "serde_json")]
+fn json_number_string(value: &BigDecimal) -> String {
+    if value.is_zero() && value.scale < 0 {
+        String::from("0")
+    } else {
+        value.to_string()
+    }
+}
+
 /// Used by SerDe to construct a BigDecimal
 struct BigDecimalVisitor;
 
@@ -308,7 +321,7 @@ pub mod arbitrary_precision {
     where
         S: serde::Serializer,
     {
-        serde_json::Number::from_str(&value.to_string())
+        serde_json::Number::from_str(&json_number_string(value))
                            .map_err(ser::Error::custom)?
                            .serialize(serializer)
     }
@@ -362,7 +375,7 @@ pub mod arbitrary_precision_option {
     {
         match *value {
             Some(ref decimal) => {
-                serde_json::Number::from_str(&decimal.to_string())
+                serde_json::Number::from_str(&json_number_string(decimal))
                                    .map_err(serde::ser::Error::custom)?
                                    .serialize(serializer)
             }
